@@ -36,7 +36,9 @@ func (eng) Rule() string {
 		"last change and no bytes in flight; or an explicit Sync when pushes are off), then compare mirror and source on every synchronised " +
 		"state. Client-side results are compared with the source's traced transition for the same uid, and an Executed mutation must be visible " +
 		"on the mirror at return. Scripted: a mutation reply parked at srv.reply.unlocked while a later push overtakes it; a client Remove " +
-		"reaching the source while a local Remove of the same state is parked between applying its target and the server tracer's TransitionEnd. Evaluation = one " +
+		"reaching the source while a local Remove of the same state is parked between applying its target and the server tracer's TransitionEnd; " +
+		"a client mutation canceled by the source while a local change is not pushed yet; a source change pushed while the client still negotiates " +
+		"its HandshakeDone; a throttled change after the server restarted its listener. Evaluation = one " +
 		"client call or one end-state comparison; distinct non-trivial = distinct (config, push interval, fault, history seed)."
 }
 func (eng) Assumptions() []string {
@@ -126,6 +128,14 @@ func (eng) Cases(seed uint64, tier string) []core.CaseDesc {
 		// tight bursts with "instant" pushes; source changes while the link is down
 		add(cfg{Kind: "burst", PushMs: -1, NoSchema: i%2 == 1}, seed*79+uint64(i))
 		add(cfg{Kind: "downtime", PushMs: []int{1, 20, -1}[i%3], NoSchema: i%2 == 1, Shallow: i%4 == 3}, seed*83+uint64(i))
+	}
+	// the server's listener fails and is restarted; throttled pushes afterwards
+	for i := 0; i < 2; i++ {
+		add(cfg{Kind: "lisrestart", PushMs: 300, NoSchema: i%2 == 1}, seed*103+uint64(i))
+	}
+	// a push that lands while the client is still negotiating its HandshakeDone
+	for i := 0; i < 2; i++ {
+		add(cfg{Kind: "hswindow", PushMs: []int{-1, 20}[i%2], NoSchema: i%2 == 1}, seed*101+uint64(i))
 	}
 	// a canceled client mutation whose reply carries a local change not pushed yet
 	for i := 0; i < 4; i++ {
@@ -266,7 +276,41 @@ func (eng) Run(c core.CaseDesc, tier string) *core.CaseResult {
 	if cf.PushMs < 0 {
 		pushInt = time.Nanosecond // "instant" clocks
 	}
-	p, err := rpcloop.NewPair(src, rpcloop.Opts{PushSet: true, PushInterval: pushInt, Tune: tune,
+	tuneFn := tune
+	if cf.Kind == "hswindow" {
+		// the client's own HandshakeDone takes a while (a user handler on the
+		// client machine), and the source changes right after the server's
+		// HandshakeDone: the push of that change lands inside the window, on
+		// the first connection and on every reconnect
+		tuneFn = func(cl *arpc.Client, sv *arpc.Server) {
+			tune(cl, sv)
+			cl.Mach.HandlerTimeout = 10 * time.Second
+			_, _ = cl.Mach.HandlersBindMaps(map[string]am.HandlerNegotiation{
+				ssrpc.ClientStates.HandshakeDone + "Enter": func(*am.Event) bool {
+					time.Sleep(250 * time.Millisecond)
+					return true
+				},
+			}, nil)
+			go func() {
+				for k := 0; k < 3; k++ {
+					select {
+					case <-sv.Mach.When1(ssrpc.ServerStates.HandshakeDone, nil):
+					case <-time.After(60 * time.Second):
+						return
+					}
+					time.Sleep(40 * time.Millisecond)
+					src.Add1("B", am.A{"uid": rec.NextUid()})
+					res.Count("source_changes_right_after_the_servers_handshake", 1)
+					select {
+					case <-sv.Mach.WhenNot1(ssrpc.ServerStates.HandshakeDone, nil):
+					case <-time.After(60 * time.Second):
+						return
+					}
+				}
+			}()
+		}
+	}
+	p, err := rpcloop.NewPair(src, rpcloop.Opts{PushSet: true, PushInterval: pushInt, Tune: tuneFn,
 		Client: arpc.ClientOpts{NoSchema: cf.NoSchema, AllowedStates: am.S(cf.Allow), SkippedStates: am.S(cf.Skip),
 			SyncShallowClocks: cf.Shallow, SyncMutations: cf.Muts}})
 	if err != nil {
@@ -286,6 +330,12 @@ func (eng) Run(c core.CaseDesc, tier string) *core.CaseResult {
 		return res
 	case "cancelreply":
 		runCancelReply(res, c, cf, r, src, p)
+		return res
+	case "hswindow":
+		runHsWindow(res, c, cf, r, src, p)
+		return res
+	case "lisrestart":
+		runListenerRestart(res, c, cf, r, src, p)
 		return res
 	case "downtime":
 		runDowntime(res, c, cf, r, src, p)
@@ -571,6 +621,103 @@ func runBurst(res *core.CaseResult, c core.CaseDesc, cf cfg, r *rand.Rand, src *
 	}
 	res.Key("burst", cf.NoSchema, c.Seed)
 	res.Sample = map[string]any{"kind": "burst", "rounds": 12}
+}
+
+// runListenerRestart: the server's listener is closed under it, the server
+// restarts it and the client reconnects. Then the source changes twice within
+// one push interval (the second change is throttled) and goes quiet: the
+// ticker has to deliver the second change.
+func runListenerRestart(res *core.CaseResult, c core.CaseDesc, cf cfg, r *rand.Rand, src *am.Machine, p *rpcloop.Pair) {
+	interval := time.Duration(cf.PushMs) * time.Millisecond
+	burst := func() {
+		src.Add1("A", am.A{"uid": rec.NextUid()})
+		time.Sleep(interval / 4)
+		src.Add1("B", am.A{"uid": rec.NextUid()})
+	}
+	settle := func() string {
+		// whole push intervals pass on a quiet source
+		for i := 0; i < 12; i++ {
+			time.Sleep(interval)
+			if compare(src, p.C, cf.Shallow) == "" {
+				return ""
+			}
+		}
+		return compare(src, p.C, cf.Shallow)
+	}
+	// control: before the restart the throttled change arrives
+	burst()
+	res.Evals++
+	if d := settle(); d != "" {
+		res.Violate("C09/diverged/throttled-push-not-compensated", "before any fault, 12 push intervals after a throttled change the mirror differs: "+d,
+			map[string]any{"config": cf, "source": src.StringAll(), "mirror": p.C.NetMach.StringAll()})
+		return
+	}
+	lis := p.S.Listener.Load()
+	if lis == nil {
+		res.Inconclusive = "no listener"
+		return
+	}
+	_ = (*lis).Close()
+	for i := 0; i < 5000 && p.C.Mach.Is1(ssrpc.ClientStates.Ready); i++ {
+		time.Sleep(time.Millisecond)
+	}
+	if p.C.Mach.Is1(ssrpc.ClientStates.Ready) {
+		res.Inconclusive = "the client did not notice the listener failure"
+		return
+	}
+	deadline := time.Now().Add(30 * time.Second)
+	for !(p.C.Mach.Is1(ssrpc.ClientStates.Ready) && p.S.Mach.Is1(ssrpc.ServerStates.Ready)) {
+		if time.Now().After(deadline) {
+			res.Inconclusive = "no reconnect after the listener restart (client " + p.C.Mach.String() + ", server " + p.S.Mach.String() + ")"
+			return
+		}
+		time.Sleep(5 * time.Millisecond)
+	}
+	time.Sleep(2 * interval)
+	burst()
+	res.Evals++
+	res.Count("listener_restarts", 1)
+	if d := settle(); d != "" {
+		res.Violate("C09/diverged/throttled-push-not-compensated/after-listener-restart", fmt.Sprintf(
+			"after the server restarted its listener and the client reconnected, the source changed twice within one push interval and went quiet; "+
+				"12 push intervals (%v each) later the mirror differs: %s", interval, d),
+			map[string]any{"config": cf, "source": src.StringAll(), "mirror": p.C.NetMach.StringAll(), "hooks": am.VerifHookHits()})
+		return
+	}
+	res.Key("lisrestart", cf.NoSchema)
+}
+
+// runHsWindow: see the tune function of this kind in Run. After the first
+// connection, and after a cut and reconnect, the source is quiet and the
+// mirror has to show the change that was pushed inside the window.
+func runHsWindow(res *core.CaseResult, c core.CaseDesc, cf cfg, r *rand.Rand, src *am.Machine, p *rpcloop.Pair) {
+	for round := 0; round < 2; round++ {
+		time.Sleep(400 * time.Millisecond) // the change after the server's handshake has been made
+		why := stabilize(p, cf)
+		res.Evals++
+		if why != "" {
+			res.Inconclusive = why
+			return
+		}
+		if d := compare(src, p.C, cf.Shallow); d != "" {
+			when := "the first connection"
+			if round == 1 {
+				when = "a reconnect"
+			}
+			res.Violate("C09/diverged/push-inside-client-handshake", fmt.Sprintf(
+				"the source changed right after the server's HandshakeDone of %s, while the client's own HandshakeDone was still being negotiated; "+
+					"with a quiet source and the connection up the mirror differs: %s", when, d),
+				map[string]any{"config": cf, "round": round, "source": src.StringAll(), "mirror": p.C.NetMach.StringAll(), "hooks": am.VerifHookHits()})
+			return
+		}
+		if round == 0 {
+			p.Proxy.Cut()
+			for i := 0; i < 3000 && p.C.Mach.Is1(ssrpc.ClientStates.Ready); i++ {
+				time.Sleep(time.Millisecond)
+			}
+		}
+	}
+	res.Key("hswindow", cf.NoSchema, cf.PushMs)
 }
 
 // runCancelReply: the source changes locally and, before the (throttled) push
